@@ -218,9 +218,9 @@ void VCoreApp::quit()
     if (self) self->m_quit = true;
 }
 // processEvents() outside any running loop: queued calls and events are delivered, DeferredDelete events stay queued (R9)
-static void mainBatch(bool deferredDeletes)
+static void mainBatch(bool deferredDeletes, VThread *m = nullptr)
 {
-    VThread *m = mainThreadObject();
+    if (!m) m = mainThreadObject();
     std::deque<Posted> keep;
     for (size_t n = m->queue.size(); n > 0 && !m->queue.empty(); n--) {
         Posted p = m->queue.front();
@@ -232,7 +232,9 @@ static void mainBatch(bool deferredDeletes)
     }
     for (auto it = keep.rbegin(); it != keep.rend(); ++it) m->queue.push_front(*it);
 }
-void VCoreApp::processEvents() { mainBatch(false); }
+// processEvents() works on the queue of the CALLING thread (a handler that pumps the event loop on the logger thread re-enters that
+// thread's event delivery)
+void VCoreApp::processEvents() { mainBatch(false, vs::active() ? currentThreadObject() : nullptr); }
 void VCoreApp::runLocalLoopUntilIdle()
 {
     VThread *m = mainThreadObject();
